@@ -18,30 +18,10 @@ answers (fall times of scheduler-made detuned-delay pulses, any values) arriving
 def Reach (dev : Device) (nQ : Nat) (s : SeqState) : Prop :=
   ∃ evs : List Ev, s = runEv (SeqState.init dev nQ) evs
 
-theorem runEv_calls (s : SeqState) (ops : List Op) : runEv s (ops.map Ev.call) = run s ops := by
-  induction ops generalizing s with
-  | nil => rfl
-  | cons op rest ih => exact ih _
-
 /-- A plain call history (no oracle answer needed) is a history. -/
 theorem Reach.of_run (dev : Device) (nQ : Nat) (ops : List Op) :
     Reach dev nQ (run (SeqState.init dev nQ) ops) :=
   ⟨ops.map Ev.call, (runEv_calls _ ops).symm⟩
-
-theorem stepEv_SG {s : SeqState} (hd : DevOk s.dev) (hi : SeqInv s) (ev : Ev) : SG s (stepEv s ev) := by
-  cases ev with
-  | call op => exact stepRaw_RG hd hi op
-  | oracle n d du fs fe => exact injectOracle_SG hi n d du fs fe
-
-theorem run_SG {s : SeqState} (hd : DevOk s.dev) (hi : SeqInv s) (evs : List Ev) :
-    SG s (runEv s evs) := by
-  induction evs generalizing s with
-  | nil => exact SG.rfl' hi
-  | cons ev rest ih =>
-    have h1 := stepEv_SG hd hi ev
-    have h2 : SG (stepEv s ev) (runEv (stepEv s ev) rest) :=
-      ih (by rw [h1.2.1]; exact hd) h1.1
-    exact SG.trans h1 h2
 
 /-- **Timeline invariant.**  In every reachable state, on every channel: the
 first instruction is the initial target `(-1, 0)`; consecutive instructions
@@ -54,7 +34,7 @@ theorem timeline_inv (dev : Device) (nQ : Nat) (hd : DevOk dev) (s : SeqState)
   obtain ⟨ops, rfl⟩ := hr
   have h0 : SeqInv (SeqState.init dev nQ) := by
     intro c hc; simp [SeqState.init] at hc
-  have h := run_SG (s := SeqState.init dev nQ) hd h0 ops
+  have h := runEv_SG (s := SeqState.init dev nQ) hd h0 ops
   intro c hc
   have := h.1 c hc
   rw [h.2.1] at this
@@ -131,7 +111,7 @@ theorem append_only_run (s : SeqState) (hd : DevOk s.dev) (hi : SeqInv s) (ops :
     ∀ (i : Nat) (c : ChanState), s.chans[i]? = some c →
       ∃ c', (runEv s ops).chans[i]? = some c' ∧ c'.name = c.name ∧ c.slots <+: c'.slots := by
   intro i c hc
-  obtain ⟨c', h1, h2⟩ := (run_SG hd hi ops).2.2.2 i c hc
+  obtain ⟨c', h1, h2⟩ := (runEv_SG hd hi ops).2.2.2 i c hc
   exact ⟨c', h1, h2.2.1, h2.2.2.1⟩
 
 /-- The reported duration of a channel is the end of its last instruction. -/
